@@ -15,7 +15,78 @@ pub(crate) fn decode<'de, T>(bytes: &'de [u8]) -> Result<T, Error>
 where
     T: Deserialize<'de>,
 {
+    check_structure(bytes)?;
     serde_bencode::from_bytes(bytes)
+}
+
+/// Maximum nesting of lists and dictionaries we accept (valid KRPC messages nest 3 levels deep).
+const MAX_DEPTH: usize = 32;
+
+/// Scans the first bencoded value in `bytes` without allocating and rejects it if it contains a byte
+/// string whose declared length exceeds the remaining input or if it is nested deeper than
+/// `MAX_DEPTH`.
+///
+/// The decoder allocates the declared length of a byte string before reading it and recurses for
+/// every nesting level, so a small malicious datagram (e.g. `d1:t99999999999:` or a long run of
+/// `l`) would otherwise make it request an enormous amount of memory (aborting the process) or
+/// overflow the stack. Anything else that is malformed is left for the decoder to report.
+fn check_structure(bytes: &[u8]) -> Result<(), Error> {
+    let mut pos = 0;
+    let mut depth = 0usize;
+
+    while pos < bytes.len() {
+        match bytes[pos] {
+            b'0'..=b'9' => {
+                let mut len = 0usize;
+
+                while pos < bytes.len() && bytes[pos].is_ascii_digit() {
+                    len = len
+                        .saturating_mul(10)
+                        .saturating_add(usize::from(bytes[pos] - b'0'));
+                    pos += 1;
+                }
+
+                if pos >= bytes.len() || bytes[pos] != b':' {
+                    return Ok(());
+                }
+
+                pos += 1;
+
+                if len > bytes.len() - pos {
+                    return Err(Error::EndOfStream);
+                }
+
+                pos += len;
+            }
+            b'i' => {
+                while pos < bytes.len() && bytes[pos] != b'e' {
+                    pos += 1;
+                }
+
+                pos += 1;
+            }
+            b'l' | b'd' => {
+                depth += 1;
+
+                if depth > MAX_DEPTH {
+                    return Err(Error::InvalidValue("nested too deeply".to_owned()));
+                }
+
+                pos += 1;
+            }
+            b'e' if depth > 0 => {
+                depth -= 1;
+                pos += 1;
+            }
+            _ => return Ok(()),
+        }
+
+        if depth == 0 {
+            break;
+        }
+    }
+
+    Ok(())
 }
 
 // Verification harnesses (compiled only by `cargo kani`; inert otherwise).
